@@ -931,47 +931,57 @@ func Lifecycle(w *load.World, c *core.Collector) {
 				if !ok || fieldOf(fa) != "cluster.loadedShard.shard" {
 					continue
 				}
-				// is the loaded value used other than in a nil comparison?
-				used := false
+				// where is the loaded value used other than in a nil comparison?
+				var useBlocks []*ssa.BasicBlock
 				for _, r := range *u.Referrers() {
 					switch x := r.(type) {
 					case *ssa.BinOp:
 						if !(ssax.IsNilConst(x.X) || ssax.IsNilConst(x.Y)) {
-							used = true
+							useBlocks = append(useBlocks, x.Block())
 						}
 					case *ssa.DebugRef:
+					case *ssa.Phi:
+						useBlocks = append(useBlocks, x.Block())
 					default:
-						used = true
+						useBlocks = append(useBlocks, r.Block())
 					}
 				}
-				if !used {
+				if len(useBlocks) == 0 {
 					continue
 				}
 				n++
 				p, _ := ssax.Path(u)
-				guarded := false
-				for _, bb := range f.Blocks {
-					ifi, ok := bb.Instrs[len(bb.Instrs)-1].(*ssa.If)
-					if !ok {
-						continue
+				// every use must sit behind the non-nil edge of a test of this value
+				// (or of another load of the same access path)
+				guarded := true
+				for _, ub := range useBlocks {
+					okUse := false
+					for _, bb := range f.Blocks {
+						ifi, ok := bb.Instrs[len(bb.Instrs)-1].(*ssa.If)
+						if !ok {
+							continue
+						}
+						bo, ok := ifi.Cond.(*ssa.BinOp)
+						if !ok || !(ssax.IsNilConst(bo.X) || ssax.IsNilConst(bo.Y)) {
+							continue
+						}
+						other := bo.X
+						if ssax.IsNilConst(bo.X) {
+							other = bo.Y
+						}
+						if op, _ := ssax.Path(other); other != ssa.Value(u) && op != p {
+							continue
+						}
+						edge := 0
+						if bo.Op == token.EQL {
+							edge = 1
+						}
+						if ssax.OnlyViaEdge(bb, edge, ub) {
+							okUse = true
+						}
 					}
-					bo, ok := ifi.Cond.(*ssa.BinOp)
-					if !ok || !(ssax.IsNilConst(bo.X) || ssax.IsNilConst(bo.Y)) {
-						continue
-					}
-					other := bo.X
-					if ssax.IsNilConst(bo.X) {
-						other = bo.Y
-					}
-					if op, _ := ssax.Path(other); op != p {
-						continue
-					}
-					edge := 0
-					if bo.Op == token.EQL {
-						edge = 1
-					}
-					if ssax.OnlyViaEdge(bb, edge, b) {
-						guarded = true
+					if !okUse {
+						guarded = false
 					}
 				}
 				key := "shard-nil-check:" + load.FnKey(f)
